@@ -65,8 +65,19 @@ func checkC19(c *Ctx) {
 		callee    string // full name of the acquiring callee
 		closerIdx int    // index of the func() closer in callee's results, -1 none, -2 = closure capturing the closers slice
 	}
-	open := c.Func(zp, "open")
 	Open := c.Func(zp, "Open")
+	// open: the function of package zap that tries newSink for every path (a helper of Open, or Open itself)
+	var open *ssa.Function
+	c.EachRootFunc(func(f *ssa.Function) {
+		if f.Pkg == nil || f.Pkg.Pkg.Path() != zp || f.Parent() != nil {
+			return
+		}
+		for _, cl := range Calls(f) {
+			if IsCallTo(cl, "(*go.uber.org/zap.sinkRegistry).newSink") {
+				open = f
+			}
+		}
+	})
 	openSinks := c.Method(zp, "Config", "openSinks")
 	build := c.Method(zp, "Config", "Build")
 	if !c.Anchor("R19.1", "zap.open/Open/Config.Build", open != nil && Open != nil && build != nil) {
@@ -418,13 +429,16 @@ func checkC19(c *Ctx) {
 		}
 		// Open relays closer on success
 		for k, r := range Returns(Open) {
+			if open == Open {
+				break // one function: what it hands out was decided on its paths above
+			}
 			rv := RetVals(r)
 			if IsNilConst(Strip(rv[2])) {
 				ex, ok := Strip(rv[1]).(*ssa.Extract)
 				okc := ok && ex.Index == 1
 				if okc {
 					cc, _ := ex.Tuple.(*ssa.Call)
-					okc = cc != nil && IsCallTo(cc, "go.uber.org/zap.open")
+					okc = cc != nil && cc.Call.StaticCallee() == open
 				}
 				c.Check(okc, "R19.1", Open.String(), "returns-closer#"+itoa(k+1), r.Pos(), "success return hands the caller open's closer unchanged (%s)", Desc(rv[1]))
 			}
